@@ -6,25 +6,40 @@
 EXTENDS Integers, Sequences, FiniteSets, TLC, Json
 CONSTANTS TraceFile
 Trace == ndJsonDeserialize(TraceFile)
-VARIABLES l, bad
+VARIABLES l, bad, present
 FS == INSTANCE LocalStoreFS WITH IdSet <- {}, x <- 0
 Ev == Trace[l]
 IsEvent(e) == l <= Len(Trace) /\ Ev.ev = e /\ l' = l + 1
 Flag(cond, what) == IF cond THEN {} ELSE {<<l, what>>}
 SeqToSet(s) == {s[k] : k \in 1..Len(s)}
-TInit == TLCSet(1, 0) /\ TLCSet(2, <<>>) /\ l = 1 /\ bad = {}
+TInit == TLCSet(1, 0) /\ TLCSet(2, <<>>) /\ l = 1 /\ bad = {} /\ present = {}
 TPrune == /\ IsEvent("prune")
           /\ bad' = bad \cup Flag(FS!PruneOK(SeqToSet(Ev.files), Ev.fmt, SeqToSet(Ev.keep), SeqToSet(Ev.removed), Ev.res),
                                   "prune removed something it must keep, or reported success with unreferenced chunks / temporary files left")
 TVerify == /\ IsEvent("verify")
            /\ bad' = bad \cup Flag(FS!VerifyOK(SeqToSet(Ev.files), Ev.fmt, Ev.repair, SeqToSet(Ev.reported), SeqToSet(Ev.removed)),
                                    "verify reported or removed something other than exactly the invalid chunks of its own format")
-\* C20: one step of a history on a shared directory; `expect` is computed by the harness from the model state it carries
-\* (see TFormat in the specification of C20 below)
-TFormat == /\ IsEvent("format")
-           /\ bad' = bad \cup Flag(Ev.ok, Ev.what)
-TNext == TPrune \/ TVerify \/ TFormat
-TSpec == TInit /\ [][TNext]_<<l, bad>>
+\* C20: histories of two differently configured clients (and an HTTP handler serving one format) over one directory
+Listing(p) == {[id |-> x.id, fmt |-> x.fmt] : x \in p}
+TFmtReset == /\ IsEvent("fmtreset") /\ present' = {} /\ UNCHANGED bad
+TFmtOp == /\ IsEvent("fmtop")
+          /\ LET r == FS!FmtOp(present, Ev.fmt, Ev.op, Ev.id) IN
+             /\ present' = r.present
+             /\ bad' = bad \cup Flag(Ev.res = r.res \/ (r.res = "invalid" /\ Ev.res = "error"), "operation of a client configured for one format answered differently than its own files warrant")
+                           \cup Flag(SeqToSet(Ev.listing) = Listing(r.present) /\ Ev.stray = 0, "directory content after the operation differs (a file of the other format or a stray file was touched, or a name is not casync's)")
+TFmtPrune == /\ IsEvent("fmtprune")
+             /\ present' = FS!FmtPrune(present, Ev.fmt, SeqToSet(Ev.keep))
+             /\ bad' = bad \cup Flag(SeqToSet(Ev.listing) = Listing(present') /\ Ev.stray = 0, "prune touched files of the other format or kept its own unreferenced ones")
+TFmtVerify == /\ IsEvent("fmtverify")
+              /\ LET r == FS!FmtVerify(present, Ev.fmt, Ev.repair) IN
+                 /\ present' = r.present
+                 /\ bad' = bad \cup Flag(SeqToSet(Ev.reported) = r.reported, "verify reported chunks of the other format or missed its own")
+                               \cup Flag(SeqToSet(Ev.listing) = Listing(r.present) /\ Ev.stray = 0, "verify removed the wrong files")
+\* a stored object: one standard zstd frame that decodes to the chunk (compressed) / the raw bytes (uncompressed);
+\* decodable by the other zstd implementation; casync-written stores readable
+TObject == /\ IsEvent("object") /\ bad' = bad \cup Flag(Ev.ok, Ev.what) /\ UNCHANGED present
+TNext == (TPrune /\ UNCHANGED present) \/ (TVerify /\ UNCHANGED present) \/ TFmtReset \/ TFmtOp \/ TFmtPrune \/ TFmtVerify \/ TObject
+TSpec == TInit /\ [][TNext]_<<l, bad, present>>
 NoBad == bad = {}
 Constr == TLCSet(1, IF TLCGet(1) < l THEN l ELSE TLCGet(1)) /\ (IF TLCGet(1) = l THEN TLCSet(2, <<0, l>>) ELSE TRUE)
 Accepted == \/ TLCGet(1) = Len(Trace) + 1
